@@ -171,12 +171,11 @@ func (c *ordCtx) callPure(call *ast.CallExpr) bool {
 	return false
 }
 
-
 // functions with a benign, idempotent side effect (lazy caches): calling them in any order leaves the same state
 var ordReviewedIdempotent = map[string]string{
 	"linker.(*linkerContext).maybeForbidArbitraryModuleNamespaceIdentifier": "only logs a located error (the logger orders messages)",
-	"graph.(*LinkerFile).LineColumnTracker": "lazily builds and caches the file's line/column tracker; same result in any order",
-	"graph.(*JSRepr).TopLevelSymbolToParts": "read-only lookup in overlay/parser maps",
+	"graph.(*LinkerFile).LineColumnTracker":                                 "lazily builds and caches the file's line/column tracker; same result in any order",
+	"graph.(*JSRepr).TopLevelSymbolToParts":                                 "read-only lookup in overlay/parser maps",
 }
 
 func (c *ordCtx) mentionsLoopLocal(e ast.Expr) bool {
